@@ -121,6 +121,18 @@ Section Frame.
     apply Q_hp_change; [exact GR|]. rewrite (get_unit_uid _ _ _ G). exact G.
   Qed.
 
+  Lemma Q_heal_hp R (GR : q_runner R) s id src a s' : heal_hp cfg R s id src a = Some s' -> Q s s'.
+  Proof.
+    unfold heal_hp. destruct (get_unit (units s) id) as [u|] eqn:G; [|intros H; inversion H; subst; apply Q_refl].
+    apply Q_hp_change; [exact GR|]. rewrite (get_unit_uid _ _ _ G). exact G.
+  Qed.
+  Lemma Q_do_heals R (GR : q_runner R) : forall ts s self a s', do_heals cfg R s self a ts = Some s' -> Q s s'.
+  Proof.
+    induction ts as [|t ts IH]; intros s self a s' H; cbn [do_heals] in H; [inversion H; subst; apply Q_refl|].
+    destruct (heal_hp cfg R s t self a) as [s1|] eqn:E1; [|discriminate].
+    eapply Q_trans; [eapply Q_heal_hp; eassumption|eapply IH; exact H].
+  Qed.
+
   Lemma Q_do_hits R (GR : q_runner R) : forall ts s self dmg s',
     do_hits cfg R s self dmg ts = Some s' -> Q s s'.
   Proof.
@@ -176,6 +188,8 @@ Section Frame.
     - destruct (get_unit (units s) _) as [u|] eqn:G; inversion H; subst; [|apply Q_refl].
       eapply Q_upd_same; [exact G|reflexivity|reflexivity].
     - inversion H; subst. apply Q_sample.
+    - match type of H with (if ?c then _ else _) = _ => destruct c end; [inversion H; subst; apply Q_refl|].
+      eapply Q_do_heals; eassumption.
   Qed.
 
   Lemma Q_exec_list R (GR : q_runner R) lm : forall ops s self p s',
